@@ -118,6 +118,10 @@ def run(ctx):
                 opts["raw_metadata"] = gen.raw_metadata(rng)[:100].hex()
             if rng.random() < 0.02:
                 opts["raw_metadata"] = rng.randbytes(30000).hex()     # a record of > 64 KiB
+            if rng.random() < 0.06:
+                # a record of 10-60 KiB made of multi-byte characters: wherever a reader cuts the bucket into blocks,
+                # the cut falls inside a character
+                opts["metadata"] = {"漢字": rng.choice(["漢", "é", "😀", "漢é😀a"]) * rng.choice([4000, 9000, 20000])}
             if rng.random() < 0.6:
                 opts["time"] = str(gen.time_value(rng))
             steps.append({"mode": mode, "req": {"op": "writer", "cache": cache, "key": k, "opts": opts,
@@ -220,6 +224,8 @@ def run(ctx):
             raw = gen.raw_metadata(rng)[:100] if rng.random() < 0.4 else None
             if rng.random() < 0.02:
                 raw = rng.randbytes(30000)     # a record of > 64 KiB
+            if rng.random() < 0.06:
+                md = {"漢字": rng.choice(["漢", "é", "😀", "漢é😀a"]) * rng.choice([4000, 9000, 20000])}
             t = gen.time_value(rng)
             sz = len(data)
             ref.append_record(cache, k, ref.entry_json(k, sri, t, sz, md, raw, style=style))
